@@ -30,7 +30,7 @@ CASE_TIMEOUT = 600
 
 def plan(tier, seed):
     cases = []
-    n = 8 if tier == "quick" else 80
+    n = 8 if tier == "quick" else 800
     for fmt in go.DUMP_FORMATS:
         for i in range(n):
             cases.append({"kind": "gen", "fmt": fmt, "i": i, "seed": seed})
